@@ -234,7 +234,9 @@ def rand_times(rng, n):
         elif r < 0.4:
             pts.add((23, 59, 59, 0))
         else:
-            pts.add((rng.randrange(24), rng.choice([0, 0, 15, 30, 59, rng.randrange(60)]), rng.choice([0, 0, 0, 30]), 0))
+            # (hundredths of a second are part of a time value)
+            pts.add((rng.randrange(24), rng.choice([0, 0, 15, 30, 59, rng.randrange(60)]), rng.choice([0, 0, 0, 30]),
+                     rng.choice([0, 0, 0, 0, 0, 0, 1, 50, 99])))
     return sorted(pts)
 
 
@@ -406,7 +408,7 @@ def local_epoch(day, h=0, m=0, sec=0):
 def local_wall(T):
     import time
     lt = time.localtime(T)
-    return datetime.date(lt.tm_year, lt.tm_mon, lt.tm_mday), (lt.tm_hour, lt.tm_min, lt.tm_sec, 0)
+    return datetime.date(lt.tm_year, lt.tm_mon, lt.tm_mday), (lt.tm_hour, lt.tm_min, lt.tm_sec, int((T - int(T)) * 100 + 1e-4))
 
 
 def timer_run(run, s, start_day, ndays, rng, with_app, zone=None):
@@ -508,8 +510,9 @@ def _timer_run(run, s, start_day, ndays, rng, with_app, zone):
         except Exception as err:
             run.violation("rewriting-a-running-schedule-raised/" + type(err).__name__, dict(wit, at=T, error=repr(err)[:120]))
             return
-        wall_date, wall_time = local_wall(T)
-        dt = "%s %02d:%02d:%02d" % ((wall_date,) + wall_time[:3])
+        # (on a clock that moves while the code runs the probe is a few milliseconds after T)
+        wall_date, wall_time = local_wall(max(float(T), CLK.now))
+        dt = "%s %02d:%02d:%02d.%02d" % ((wall_date,) + wall_time)
         want = ref_eval(s, wall_date, wall_time)
         run.count("timer_probes")
         if zone:
